@@ -75,6 +75,11 @@ CLAIMED = {
     text='memo_fresh holds for every history of binaries at a path in which equal mtime implies equal contents, and different_binaries_different_keys (via the C02 theorems) separates results of different binaries; the real SccacheService::compiler_info is compared with the model (digest used per request, re-detection) on swap histories, and a live server is driven through copy- and symlink-swaps of wrapper compilers with every result compared to a direct run.',
     note='Trusted: Lean kernel, Model/Memo.lean (tied by h_memo). A replacement restoring an earlier mtime with new contents is outside the statement (kernel-checked witness, recorded).',
     ref='DESIGN.md section 4 C12, Appendix B.9'),
+
+ 'C11': dict(technique='Lean 4 proof (total decision function of the client over the finite alphabet of server behaviours) + exhaustive enumeration of that alphabet with the real client binary against a scripted fake server + kill / garbage-frame monitors on the real server',
+    text='exit0_only_if_true_result, deliver_only_after_finished, ack_then_eof_local, lost_before_ack and ignore_io_error_always_local are proved over the whole alphabet of handle_compile_response; the real client binary is run against a fake server for every symbol (34 cases, 0 disagreements required); the real server is SIGKILLed during detection, preprocessing and compilation and bombarded with malformed frames while another client compiles.',
+    note='Trusted: Lean kernel, Model/Client.lean (tied exhaustively by the fake-server run), bincode frame layout of the fake server. TCP half-open timing is not modelled.',
+    ref='DESIGN.md section 4 C11, Appendix B.7, D.4'),
 }
 NA_REASON = 'not yet wired into ./check in this round (model and theorems exist under lean/; see DESIGN.md section 0.1)'
 def hooks():
